@@ -20,6 +20,7 @@ SEPS = [
     (("G", 200, "scaffold"),),
     (("G", 7, "contig"),),
     (("G", 3, "contig"), ("G", 5, "scaffold")),
+    (("G", 0, "scaffold"),),  # a zero-length gap row (TPF input only; two-contig family)
 ]
 
 
@@ -58,7 +59,7 @@ def inputs_for(bpt, tier):
         for h in heads:
             for t in tails:
                 for sep in SEPS:
-                    if style == "fasta" and not sep:
+                    if style == "fasta" and (not sep or sep[0][1] == 0):
                         continue
                     for st in itertools.product(strands, repeat=2):
                         out.append((("scaffold_1", pv.scaffold_rows(style, "scaffold_1", (h, t), (sep,), st)),))
